@@ -294,6 +294,14 @@ func init() {
 				run(&g)
 				c.Add("recorded_events", 1)
 			}
+			// a group that consists of the end-of-event marker alone holds no records (the data records were lost)
+			for i := 0; i < 200; i++ {
+				r := c.Rand(3, uint64(i))
+				body := mon.Pick(r, []string{"", " ", "x=y", "items=0"})
+				g := logenc.Group{Name: "eoe-only", Lines: []string{fmt.Sprintf("type=EOE msg=audit(%d.%03d:%d): %s", 1490000000+r.Intn(1e8), r.Intn(1000), r.Uint32(), body)}}
+				run(&g)
+				c.Add("eoe_only_groups", 1)
+			}
 			// nil / empty input
 			for _, in := range [][]*auparse.AuditMessage{nil, {}} {
 				e, err := aucoalesce.CoalesceMessages(in)
